@@ -429,17 +429,12 @@ func (rt *runtime) convertCallParameter(v Value, t reflect.Type) (reflect.Value,
 				tt := t.Elem()
 
 				switch o.class {
-				case classArrayName:
+				default:
+					// Arrays (also with holes or accessor elements) and array-likes:
+					// every element is read with [[Get]] and converted; a missing
+					// element is undefined, not a silent zero value.
 					for i := range l {
-						p, ok := o.property[strconv.FormatInt(i, 10)]
-						if !ok {
-							continue
-						}
-
-						e, ok := p.value.(Value)
-						if !ok {
-							continue
-						}
+						e := o.get(strconv.FormatInt(i, 10))
 
 						ev, err := rt.convertCallParameter(e, tt)
 						if err != nil {
